@@ -35,4 +35,34 @@ theorem repaired_rejects_word_for_boolean :
 theorem repaired_reads_no_as_false :
     (match convLeaf .toBool (.str "no".toList) with | some (.bool b) => b | _ => true) = false := by decide
 
+/-! ## why the cycle check must see the edges that leave aggregating components
+
+An aggregating component does not forward its `replicate` value, so for the *propagation* of `replicate` the
+edges aggregator → consumer carry nothing.  They still carry dependencies: a cycle check over the propagation
+graph without them accepts a document whose expanded graph is cyclic. -/
+
+def edgesWithoutAggregatorOut (d : Doc) : List (Id × Id) := (edges d).filter (fun e => !isAgg d e.1)
+
+def cyc : Doc :=
+  { comps := [{ stage := 0, name := "gen".toList, refs := [(0, "red".toList)], argRefs := [], opts := .dict [],
+                vars := [], uses := [], replicate := some 2 },
+              { stage := 0, name := "sim".toList, refs := [(0, "gen".toList)], argRefs := [], opts := .dict [],
+                vars := [], uses := [] },
+              { stage := 0, name := "red".toList, refs := [(0, "sim".toList)], argRefs := [], opts := .dict [],
+                vars := [], uses := [], aggregate := true }],
+    globals := [] }
+
+/-- Kahn's algorithm over the reduced graph ranks every component of `cyc` … -/
+theorem reduced_graph_looks_acyclic :
+    (ids cyc).all (isRanked (kahn (edgesWithoutAggregatorOut cyc) (ids cyc) (ids cyc).length 0 [])) = true := by
+  decide +kernel
+
+/-- … but the expanded graph has the cycle `red → gen0 → sim0 → red`, and the check over the full graph
+reports it -/
+theorem expanded_graph_is_cyclic :
+    ((0, "red".toList), (0, "gen0".toList)) ∈ edges (expandDoc cyc) ∧
+    ((0, "gen0".toList), (0, "sim0".toList)) ∈ edges (expandDoc cyc) ∧
+    ((0, "sim0".toList), (0, "red".toList)) ∈ edges (expandDoc cyc) ∧ acyclicB cyc = false := by
+  decide +kernel
+
 end St4sd.C11.Witness
